@@ -95,7 +95,7 @@ static std::string order_str(const std::vector<int>& o) { std::string s; for (si
 static double scal(const Kind& k, double a, double b) { if (k.range=='b') return (a!=0||b!=0)?1:0; if (k.isEVp()) return std::min(a,b); return std::max(a,b); }
 
 // one execution; returns number of rand() calls made by the library (for choice-point enumeration)
-static size_t exec_case(const Scen& S, const std::vector<int>& regs, bool warm, const std::vector<int>& pi, const std::vector<int>* pi2, const std::vector<int>& script)
+static size_t exec_case(const Scen& S, const std::vector<int>& regs, bool warm, const std::vector<int>& pi, const std::vector<int>* pi2, const std::vector<int>& script, bool follow=false)
 {
     rand_reset(script);
     lib_init();
@@ -122,6 +122,7 @@ static size_t exec_case(const Scen& S, const std::vector<int>& regs, bool warm, 
         }
         unsigned long gfp = forest_fingerprint(G);
         std::vector<int> cur(S.s.K()+1); for (int i=0;i<=S.s.K();i++) cur[i]=i;
+        std::vector<int> gorder = cur;      // the order the bystander is expected to report
         bool declinedFlag=false;
         for (int round=0; round<2; round++) {
             const std::vector<int>* target = round==0 ? &pi : pi2;
@@ -161,12 +162,23 @@ static size_t exec_case(const Scen& S, const std::vector<int>& regs, bool warm, 
                 dd_edge r(F); op->compute(reg[0], reg[1], r);
                 if (r != reg[opres]) violation("stale-after-reorder","operation repeated after reorder to %s gives a different edge than the held (reordered) result", order_str(cur).c_str());
             }
-            // bystander untouched
+            // bystander untouched (it reports the order it was last given, its nodes and its edge are unchanged)
             if (forest_fingerprint(G) != gfp) violation("bystander-changed","forest over the same domain was modified by reordering another forest");
             std::vector<int> go(S.s.K()+1); G->getVariableOrder(go.data());
-            for (int i=1;i<=S.s.K();i++) if (go[i]!=i) { violation("bystander-order","bystander forest's variable order changed"); break; }
-            std::string e2 = check_edge(gb,S.k,S.s,S.cat[regs[0]]);
-            if (!e2.empty()) violation("bystander-function","bystander edge: %s", e2.c_str());
+            for (int i=1;i<=S.s.K();i++) if (go[i]!=gorder[i]) { violation("bystander-order","bystander forest's variable order changed: it reports %s, it was last given %s", order_str(go).c_str(), order_str(gorder).c_str()); break; }
+            { Shape gs = reordered_shape(S.s, gorder); std::string e2 = check_edge(gb,S.k,gs,reordered_table(S.k,S.s,gorder,S.cat[regs[0]]));
+              if (!e2.empty()) violation("bystander-function","bystander edge: %s", e2.c_str()); }
+            // "follow" variant: after the first reorder the bystander is given the same (non-default) order, so that the two
+            // forests share one order; the second reorder of F must then leave the bystander where it is
+            if (follow && round==0 && pi2) {
+                try {
+                    G->reorderVariables(cur.data());
+                    G->getVariableOrder(go.data()); gorder = go;
+                    Shape gs = reordered_shape(S.s, gorder); std::string e3 = check_edge(gb,S.k,gs,reordered_table(S.k,S.s,gorder,S.cat[regs[0]]));
+                    if (!e3.empty()) violation("reorder-changed-function","bystander after its own reorder to %s: %s", order_str(gorder).c_str(), e3.c_str());
+                    gfp = forest_fingerprint(G);
+                } catch (MEDDLY::error e) { ctx.counters["declined_cases"]++; }
+            }
         }
         (void)declinedFlag;
     }
@@ -213,24 +225,28 @@ static void run_unit(const std::map<std::string,std::string>& spec)
         std::vector<const std::vector<int>*> seconds; seconds.push_back(nullptr);
         if (second=="all") { if (rs.size()>1) for (auto& q : perms) seconds.push_back(&q); else { seconds.push_back(&ident); seconds.push_back(&rev); } }
         else if (second=="few" && rs.size()>1) { seconds.push_back(&ident); seconds.push_back(&rev); }
-        for (const std::vector<int>* pi2 : seconds) {
+        // (second order, bystander follows?) pairs: the follow variant is added for the orders identity and reverse
+        std::vector<std::pair<const std::vector<int>*,bool>> plans; for (auto* q : seconds) plans.push_back({q,false});
+        if (second!="none") { plans.push_back({&ident,true}); plans.push_back({&rev,true}); }
+        for (auto& plan : plans) {
+            const std::vector<int>* pi2 = plan.first; const bool follow = plan.second;
             std::string rss; for (int r : rs) { rss += "[" + tab_str(S.cat[r]) + "]"; }
             // choice-point enumeration for RANDOM: depth-first over answer scripts; values 0..2 cover every residue of |inversions|<=3
             std::vector<std::vector<int>> todo; todo.push_back({});
             while (!todo.empty()) {
                 std::vector<int> script = todo.back(); todo.pop_back();
                 std::string ss; for (int v : script) ss += char('0'+v);
-                if (!case_begin("kind=%s shape=%s heur=%s swap=%c regs=%s warm=%d reorder=%s then=%s rand=%s", S.k.name().c_str(), S.s.name.c_str(), HEUR[S.heur], S.swap, rss.c_str(), warm, order_str(pi).c_str(), pi2?order_str(*pi2).c_str():"-", ss.c_str())) {
+                if (!case_begin("kind=%s shape=%s heur=%s swap=%c regs=%s warm=%d reorder=%s then=%s rand=%s", S.k.name().c_str(), S.s.name.c_str(), HEUR[S.heur], S.swap, rss.c_str(), warm, order_str(pi).c_str(), pi2?(order_str(*pi2)+(follow?"+bystander-follows-first-order":"")).c_str():"-", ss.c_str())) {
                     // replay modes: keep the enumeration identical by still exploring the children (cheap)
                     if (ctx.stop) break;
                     if (S.heur!=6) continue;
                     ctx.quiet = true; long au=ctx.audits, tr=ctx.transitions;
-                    size_t ncalls = exec_case(S, rs, warm, pi, pi2, script);
+                    size_t ncalls = exec_case(S, rs, warm, pi, pi2, script, follow);
                     ctx.quiet = false; ctx.audits=au; ctx.transitions=tr;
                     for (size_t pos=ncalls; pos-- > script.size();) for (int v=2; v>=1; v--) { std::vector<int> c = script; c.resize(pos,0); c.push_back(v); todo.push_back(c); }
                     continue;
                 }
-                size_t ncalls = exec_case(S, rs, warm, pi, pi2, script);
+                size_t ncalls = exec_case(S, rs, warm, pi, pi2, script, follow);
                 if (pi != ident) note_nontrivial(hstr(ctx.cur));
                 if (S.heur==6) {
                     ctx.counters["rand_choice_points"] += (long)(ncalls > script.size() ? ncalls - script.size() : 0);
